@@ -137,6 +137,21 @@ def cmdAlias (st : Session) (verb head : String) : Session × String :=
        let (r', res) := st.outRes.resolve a (t.getD [])
        ({ st with outRes := r' }, s!"res=ok skip={b01 res.skipTopic}" ++ putNum "alias" res.alias)
      | _, _ => (st, "res=bad-request"))
+  | "alias.out.fill" =>
+    (match kv.numD "n" with
+     | some n =>
+       -- `fillFast` is `resolveAll (fillTopics n)` (Proofs/AliasFill.lean: fillFast_eq)
+       let (r', outs) := st.outRes.fillFast n
+       let aliases := outs.filterMap (·.alias)
+       let none := outs.length - aliases.length
+       let skip := (outs.filter (·.skipTopic)).length
+       let zero := (aliases.filter (· == 0)).length
+       let mn := aliases.foldl (fun m a => if a < m then a else m) (aliases.headD 0)
+       let mx := aliases.foldl (fun m a => if a > m then a else m) 0
+       let last := aliases.getLast?.getD 0
+       let sum := aliases.foldl (· + ·) 0
+       ({ st with outRes := r' }, s!"res=ok n={n} none={none} skip={skip} zero={zero} min={mn} max={mx} last={last} sum={sum}")
+     | none => (st, "res=bad-request"))
   | "alias.in.new" =>
     (match kv.numD "max" with
      | some m => ({ st with inRes := { maxAlias := m } }, "res=ok")
@@ -163,7 +178,7 @@ def dispatch (st : Session) (line : String) : Session × String :=
   | "validate.outint" => (st, cmdValidateOutInt head payload)
   | "validate.in" => (st, cmdValidateIn payload)
   | "spec.valid" => (st, cmdSpecValid head payload)
-  | "alias.out.new" | "alias.out.reset" | "alias.out.resolve" | "alias.in.new" | "alias.in.reset" | "alias.in.resolve" =>
+  | "alias.out.new" | "alias.out.reset" | "alias.out.resolve" | "alias.out.fill" | "alias.in.new" | "alias.in.reset" | "alias.in.resolve" =>
     cmdAlias st verb head
   | "spec.decode" => (st, cmdSpecDecode head)
   | "spec.encode" => (st, cmdSpecEncode head payload)
